@@ -3,6 +3,7 @@ mod algs;
 mod api;
 mod misc;
 mod text;
+mod unit;
 
 use crate::Ctx;
 
@@ -25,6 +26,7 @@ pub fn run(suite: &str, ctx: &mut Ctx) {
         "identify" => text::suite_identify(ctx),
         "determinism" => text::suite_determinism(ctx),
         "api" => api::suite_api(ctx),
+        "umyers" | "ulcs" | "uunique" | "ucompact" | "uclose" | "uinline" => unit::suite_unit(ctx, suite),
         _ => panic!("unknown suite {}", suite),
     }
 }
@@ -35,6 +37,7 @@ pub fn replay(line: &str) {
     match head {
         "diff" | "capture" | "script" => algs::replay(line),
         "group" | "changes" | "allchanges" | "ratio" => misc::replay(line),
+        "usnake" | "utable" | "ucpl" | "ucsl" | "uunique" | "ucleanup" | "ushift" | "uupper" | "uquick" | "uorig" | "upush" => unit::replay(line),
         "tok" | "ws" | "text" | "udiff" | "inline" | "remap" | "close" | "identify" => text::replay(line),
         _ => println!("unknown request kind {}", head),
     }
